@@ -110,6 +110,11 @@ def gen_keys(tier, seed):
         for uni in (False, True):
             yield "a" + chr(cp) + "b", uni, b""
             yield chr(cp), uni, b"x"
+    # keys that Unicode normalisation would change (legal as they are, distinct from their normalised twins)
+    for k_ in ("cafe\u0301", "caf\u00e9", "\u212b", "\u00c5", "A\u030a", "\u1100\u1161", "\uac00", "\ufb01", "fi", "\u2126", "\u03a9", "x\u0323\u0307", "x\u0307\u0323"):
+        for uni in (False, True):
+            yield k_, uni, b""
+            yield k_, uni, b"p:"
     # lengths around the limit
     for plen in (0, 1, 125, 249, 250):
         prefix = b"P" * plen
@@ -417,6 +422,16 @@ def shard(tier, seed, idx, n):
                             return wire if wire is not None else b"<connection error instead of an input error>"
                         return b"<no error although the server refuses connections>"
                     judge_direct(res, st, base, "%s(server unreachable).%s" % (cname, oname), uop, key, uni, prefix)
+            if isinstance(key, (str, bytes)) and (i % 4 == 0 or not legal) and len(prefix) < 250:
+                # the judged key as the SERVER key of a (server_key, key) pair: validated like any key, on every path
+                for pname, pfn in (("get", lambda: h.get((key, "o"))), ("get_many", lambda: h.get_many([(key, "o")])),
+                                   ("set_many", lambda: h.set_many({(key, "o"): b"v"}, noreply=False)),
+                                   ("set", lambda: h.set((key, "o"), b"v", noreply=False))):
+                    def pair_op(pfn=pfn):
+                        pfn()
+                        return wire          # accepted: what reaches the wire is the inner key, not judged here
+                    judge_direct(res, st, base, "HashClient.%s((server_key, 'o'))" % pname, pair_op, key, uni, prefix)
+                res.count("server_key_pairs_judged")
             if srv.malformed[m1:]:
                 ign_clients.pop((uni, prefix), None)
             if srv.malformed[m0:]:
